@@ -85,6 +85,38 @@ func Debug(c *Ctx, what string) {
 				fmt.Printf("%s (x%d)\n", k, agg[k])
 			}
 		}
+	case "smt":
+		m := BuildSM(c)
+		for _, cx := range m.Contexts {
+			fmt.Printf("=== context %s\n", cx.Name)
+			T := smTransitions(m, cx.Name)
+			var sts []string
+			for st := range T {
+				sts = append(sts, st)
+			}
+			sortStrings(sts)
+			for _, st := range sts {
+				by := map[string][]string{}
+				for cl, outs := range T[st] {
+					var set []string
+					for o := range outs {
+						set = append(set, o)
+					}
+					sortStrings(set)
+					k := strings.Join(set, " ")
+					by[k] = append(by[k], cl)
+				}
+				var ks []string
+				for k := range by {
+					ks = append(ks, k)
+				}
+				sortStrings(ks)
+				for _, k := range ks {
+					sortStrings(by[k])
+					fmt.Printf("  %-36s %-45s -> %s\n", st, strings.Join(by[k], " "), k)
+				}
+			}
+		}
 	default:
 		fmt.Println("unknown debug target", what, "(eff)")
 	}
